@@ -234,6 +234,36 @@ class OddKey:
     __hash__ = None
 
 
+class _ExactKey:
+    __slots__ = ("k",)
+
+    def __init__(self, k):
+        self.k = k
+
+    def __eq__(self, other):
+        return isinstance(other, _ExactKey) and self.k == other.k
+
+    def __ne__(self, other):
+        return not (isinstance(other, _ExactKey) and self.k == other.k)
+
+    def __hash__(self):
+        return 0
+
+
+class CoarseKey(_ExactKey):
+    """["NE", k]: a subclass that widens ``==`` (keys 2n and 2n+1 are equal: case-insensitive names, rounded values)
+    and inherits a spelled-out ``!=`` that still compares exactly.  ``==`` is reflexive, symmetric and transitive;
+    ``!=`` is simply another question - whoever groups "equal keys" has to ask ``==``, as itertools does"""
+
+    __slots__ = ()
+
+    def __repr__(self):
+        return f"CoarseKey({self.k})"
+
+    def __eq__(self, other):
+        return isinstance(other, CoarseKey) and self.k // 2 == other.k // 2
+
+
 class TolKey:
     """["T", k]: a key equal to every key at distance <= 1: reflexive and symmetric, NOT transitive"""
 
@@ -353,6 +383,8 @@ def mat(v):
         return LtPure(v[1], v[2])
     if t == "T":
         return TolKey(v[1])
+    if t == "NE":
+        return CoarseKey(v[1])
     if t == "E":
         return EqAll(v[1])
     if t == "W":
@@ -398,7 +430,10 @@ def mat(v):
 #: as DATA they are items like any other
 SPECIALS = {"StopAsyncIteration": StopAsyncIteration, "StopIteration": StopIteration, "NotImplemented": NotImplemented,
             "Ellipsis": Ellipsis, "GeneratorExit": GeneratorExit, "object": object, "type": type,
-            "KeyError": KeyError, "IndexError": IndexError}
+            "KeyError": KeyError, "IndexError": IndexError,
+            # ... and exception INSTANCES (what gather(return_exceptions=True) or a result queue hands around)
+            "StopAsyncIteration()": StopAsyncIteration(), "StopIteration()": StopIteration("a value"),
+            "GeneratorExit()": GeneratorExit(), "KeyError()": KeyError("k")}
 
 
 def mats(vs):
@@ -435,6 +470,8 @@ def sig(o):
         return ("E", o.uid)
     if isinstance(o, OddKey):
         return ("O", o.k, o.mode)
+    if isinstance(o, CoarseKey):
+        return ("NE", o.k)
     if isinstance(o, TolKey):
         return ("T", o.k)
     if isinstance(o, StrictKey):
